@@ -369,7 +369,7 @@ pub struct HistoryCase {
     pub seed: u64,
 }
 
-fn history_strat() -> BoxedStrategy<HistoryCase> {
+pub fn history_strat() -> BoxedStrategy<HistoryCase> {
     let start = (0usize..7, any_shape()).prop_flat_map(|(group, shape)| {
         let (area, _) = shape_area_radius(&shape);
         let n = geom::group(group).ops.len() as f64;
